@@ -246,7 +246,7 @@ func queryCases(rig *Rig, sc *Scenario, v *View) []qcase {
 			return r.RequestContext.String(), nil
 		}
 		out = append(out, c)
-		counters := []uint64{0, rc.BatchCounter, rc.BatchCounter + 1}
+		counters := []uint64{0, rc.BatchCounter, rc.BatchCounter + 1, 256, 512} // 256 x b: what an identifier extended by a zero byte would turn batch b into
 		if rc.BatchCounter > 1 {
 			counters = append(counters, rc.BatchCounter-1)
 		}
